@@ -1,5 +1,5 @@
 (* C05 — replaying a subscriber's diffs reproduces each vector state, step by step. *)
-From EB Require Import OVec OVecRun OVecFacts OVecExtra.
+From EB Require Import OVec OVecRun OVecFacts OVecExtra OVecStepwise.
 
 (* the diff a mutating call publishes is strictly applicable to the contents before the call and
    produces exactly the contents after it; nothing is published only for the documented no-ops
@@ -57,6 +57,36 @@ Proof.
   cbv beta iota in P. destruct P as (_ & P2 & P3). split; [apply P3; exact L|exact P2].
 Qed.
 Print Assumptions C05_received_is_everything_published.
+
+(* step by step: in every reachable state, for every live subscriber, replaying what is still
+   pending for it message by message - the rest of the batch it is handing out, then the diffs of the
+   next j+1 messages, each diff checked for applicability - yields exactly the contents the vector had
+   right after the (j+1)-th of those mutating calls: every call contributes diffs that take the
+   replica from the state before the call to the state after it *)
+Theorem C05_replay_stepwise :
+  forall (A : Type) (capacity : nat) (xs : list (op A)) k s gh,
+    let g := grun (ginit capacity) xs in
+    nth_error (subs (g_o g)) k = Some (Some s) -> nth_error (g_gh g) k = Some gh ->
+    length (log (g_o g)) - sb_next s <= cap2 (g_o g) ->
+    forall j, j < length (log (g_o g)) - sb_next s ->
+      apply_all_ok
+        ((match sb_state s with SYield rest => rest | SRecv => [] end)
+           ++ concat (map (@m_diffs A) (firstn (S j) (skipn (sb_next s) (log (g_o g))))))
+        (gh_replica gh)
+      = option_map (@m_state A) (nth_error (log (g_o g)) (sb_next s + j)).
+Proof. intros A capacity xs k s gh; apply replay_stepwise. Qed.
+Print Assumptions C05_replay_stepwise.
+
+(* ... and between messages the replica is itself a state the vector had *)
+Theorem C05_replica_is_a_published_state :
+  forall (A : Type) (capacity : nat) (xs : list (op A)) k s gh,
+    let g := grun (ginit capacity) xs in
+    nth_error (subs (g_o g)) k = Some (Some s) -> nth_error (g_gh g) k = Some gh ->
+    sb_state s = SRecv -> length (log (g_o g)) - sb_next s <= cap2 (g_o g) ->
+    gh_start gh < sb_next s ->
+    exists m, nth_error (log (g_o g)) (sb_next s - 1) = Some m /\ gh_replica gh = m_state m.
+Proof. intros A capacity xs k s gh; apply replica_is_a_published_state. Qed.
+Print Assumptions C05_replica_is_a_published_state.
 
 (* the invariant behind it, in every reachable state and for every live subscriber - in particular
    within the window, what is still to come takes the replica to the current contents *)
